@@ -16,7 +16,8 @@ RULE = ("1-4 case arguments, 1-8 distinct cases (dict spelling through combo_run
 TRUSTED = ["unsortable (mixed-type) coordinate order is not modelled (generators keep one type per argument)"]
 ASSUMPTIONS = ["all cases of one request have the same keys (the property's quantifier)"]
 
-KINDS = sweeps.KINDS_BASIC + [{'tuple': [[[], 'str'], [[], 'num'], [[], 'bool']]}, sweeps.KIND_DS]
+KINDS = sweeps.KINDS_BASIC + [{'tuple': [[[], 'str'], [[], 'num'], [[], 'bool']]}, sweeps.KIND_DS,
+                               {'ds': [['u', [], 'int'], ['v', [2], 'bool']]}, {'ds': [['u', [2], 'str'], ['v', [], 'int']]}]
 
 
 def n_box(sw):
@@ -40,6 +41,8 @@ def _case(rng, heavy_ok=False, **kw):
     c = {'sweep': sw, 'kind': kind, 'strategy': sweeps.gen_strategy(rng, heavy_ok), 'via': via,
          'split': bool(k) and rng.random() < 0.6, 'flat': via == 'case_runner' or rng.random() < 0.2,
          'spelling': rng.choice(['dict', 'dict_anyorder', 'tuple']) if via == 'case_runner' else rng.choice(['dict', 'dict_anyorder'])}
+    if via == 'case_runner' and len(sw['case_args']) == 1 and rng.random() < 0.6:
+        c['spelling'] = 'bare'
     if 'ds' in kind:
         c['strategy'] = {'name': rng.choice(['seq', 'shuffle_int']), 'shuffle': rng.randint(1, 30)}
         if c['strategy']['name'] == 'seq': c['strategy'].pop('shuffle')
